@@ -128,6 +128,30 @@ func buildOverlay(all []harnessRef, pkgs map[string]bool, withTest bool) (map[st
 			}
 			ov[filepath.Join(dir, "zz_verif_"+filepath.Base(f))] = b
 		}
+		// constant scaling: harness/<pkg>/scale.json lists textual replacements in
+		// repository files of this package (e.g. a 1 MiB block constant -> 4); the
+		// replacement is applied to the file's CURRENT content, for the engine and
+		// for native replays alike, and fails loudly if the text is not found
+		if sc, err := os.ReadFile(filepath.Join(hdir, "scale.json")); err == nil {
+			var rules []struct{ File, From, To string }
+			if err := json.Unmarshal(sc, &rules); err != nil {
+				return nil, fmt.Errorf("scale.json in %s: %v", hdir, err)
+			}
+			for _, r := range rules {
+				path := filepath.Join(repoDir, r.File)
+				cur, ok := ov[path]
+				if !ok {
+					cur, err = os.ReadFile(path)
+					if err != nil {
+						return nil, err
+					}
+				}
+				if !strings.Contains(string(cur), r.From) {
+					return nil, fmt.Errorf("constant scaling: %q not found in %s", r.From, r.File)
+				}
+				ov[path] = []byte(strings.Replace(string(cur), r.From, r.To, 1))
+			}
+		}
 		var sb strings.Builder
 		sb.WriteString("//go:build verif\n\npackage " + name + "\n\nvar vhRegistry = map[string]func(){\n")
 		sort.Strings(funcs)
@@ -210,6 +234,7 @@ func loadEngine(all []harnessRef, sel []harnessRef, tier int) (*sym.Engine, erro
 	}
 	if tier == 1 {
 		eng.TimeoutMs = 60000
+		eng.MaxPaths = 3000000
 	}
 	if m := os.Getenv("GOSMT_MAXPATHS"); m != "" {
 		eng.MaxPaths, _ = strconv.Atoi(m)
